@@ -304,7 +304,7 @@ func Main(id, level string, body func(c *Ctx)) {
 	}
 	b := *budget
 	if b == 0 {
-		b = Pick(c, 8*time.Minute, 40*time.Minute)
+		b = Pick(c, 8*time.Minute, 25*time.Minute)
 	}
 	c.deadline = time.Now().Add(b)
 	if pf := os.Getenv("VERIF_CPUPROFILE"); pf != "" {
